@@ -42,11 +42,21 @@ def anchor(p, act):
     return None
 
 
+def lo(a):
+    """earliest instant at which the call can have taken effect (entry, plus the injected delay)"""
+    return a["t"]
+
+
+def hi(a):
+    """latest instant (exit of the call as strace saw it)"""
+    return a["t"] + a.get("dur", 0.0) + 0.0003
+
+
 def serving(p):
-    """(bind time, shutdown-unlink time) of a process that bound successfully, else None"""
+    """(bind certainly done, shutdown unlink not yet begun) of a process that bound successfully, else None"""
     b, s = anchor(p, "bind"), anchor(p, "shutunlink")
     if b and b["ok"]:
-        return (b["t"], s["t"] if s else p["exited"])
+        return (hi(b), lo(s) if s else p["exited"])
     return None
 
 
@@ -87,14 +97,14 @@ def race_class(s):
             bp = anchor(b, "probe")
             if b is a or not bp or bp["ok"]:
                 continue
-            if ap["t"] <= bp["t"] < ab["t"] and (ap["t"] < bp["t"] or a["i"] < b["i"]):
+            if lo(ap) <= hi(bp) and lo(bp) < hi(ab) and (lo(ap) < lo(bp) or a["i"] < b["i"]):
                 return "probe-in-window"
     for a in ps:
         for x in a["anchors"]:
             if x["act"] in ("unlink", "shutunlink", "lateunlink") and x["ok"]:
                 for b in ps:
                     sv = serving(b)
-                    if b is not a and sv and sv[0] < x["t"] < sv[1]:
+                    if b is not a and sv and sv[0] - 0.002 < hi(x) and lo(x) < sv[1] + 0.002:
                         return "foreign-unlink"
     return "none"
 
@@ -109,17 +119,18 @@ def monitors(s):
             sv = serving(a)
             if a is b or not sv or not bp:
                 continue
-            if sv[0] + MARGIN < bp["t"] < sv[1] - MARGIN:
+            if sv[0] + MARGIN < lo(bp) and hi(bp) < sv[1] - MARGIN:
                 # b asked while a was serving: b must be refused silently
-                if klass(b) != 2 or executed(b) or recorded(s, b) or len(b["anchors"]) != 1:
+                if klass(b) != 2 or executed(b) or recorded(s, b) or len(b["anchors"]) != 1 or b.get("hist_new", 0) > 0:
                     out.append(("a %s issued while run %s was active (bound, not shut down) was not refused silently: exit %d, "
-                                "executed=%s, recorded=%s" % (b["kind"], a["tag"], b["code"], executed(b), recorded(s, b)), [a["i"], b["i"]]))
+                                "executed=%s, recorded=%s, new history entries=%d"
+                                % (b["kind"], a["tag"], b["code"], executed(b), recorded(s, b), b.get("hist_new", 0)), [a["i"], b["i"]]))
     for a in ps:
         sv = serving(a)
         if not sv:
             continue
         for pr in s["probes"]:
-            if sv[0] + MARGIN < pr["t"] < sv[1] - MARGIN and (not pr["answered"] or pr["pid"] != a["pid"]):
+            if sv[0] + MARGIN < pr["t"] and pr.get("t2", pr["t"]) < sv[1] - MARGIN and (not pr["answered"] or pr["pid"] != a["pid"]):
                 out.append(("the status endpoint of the active run %s did not answer a request at %s (answered=%s by pid %s)"
                             % (a["tag"], pr["label"], pr["answered"], pr["pid"]), [a["i"]]))
         if a["code"] == 0:
@@ -132,7 +143,7 @@ def monitors(s):
         if ia and ib and ia[0] < ib[1] and ib[0] < ia[1]:
             out.append(("two runs of the file executed steps at the same time (%s and %s)" % (a["tag"], b["tag"]), [a["i"], b["i"]]))
     for p in ps:
-        if p["code"] != 0 and (recorded(s, p) or executed(p)):
+        if p["code"] != 0 and (recorded(s, p) or executed(p) or p.get("hist_new", 0) > 0):
             out.append(("%s %s ended with an error (exit %d) but recorded a run / executed steps (recorded=%s, executed=%s)"
                         % (p["kind"], p["tag"], p["code"], recorded(s, p), executed(p)), [p["i"]]))
     return out
@@ -145,19 +156,26 @@ def events(s):
     ev = []
     for p in s["procs"]:
         for a in p["anchors"]:
-            ev.append((a["t"], p["i"], a["act"]))
+            ev.append((lo(a), p["i"], a["act"], hi(a)))
+        if p.get("exited"):
+            last = max([hi(a) for a in p["anchors"]] + [p["launched"]])
+            ev.append((max(p["exited"], last + 1e-6), p["i"], "exit", max(p["exited"], last + 1e-6)))
     ev.sort()
     return ev
 
 
-def candidate_orders(ev):
-    """the observed order first; then every order that permutes only calls of different processes closer than CLUSTER"""
+def candidate_orders(ev, cluster=CLUSTER, maxcand=MAXCAND):
+    """the observed order first; then every order that permutes only calls of different processes whose time windows are
+    closer than `cluster`"""
     clusters, cur = [], []
+    reach = 0.0
     for e in ev:
-        if cur and e[0] - cur[-1][0] > CLUSTER:
+        if cur and e[0] - reach > cluster:
             clusters.append(cur)
             cur = []
+            reach = 0.0
         cur.append(e)
+        reach = max(reach, e[3])
     if cur:
         clusters.append(cur)
 
@@ -181,7 +199,7 @@ def candidate_orders(ev):
     out = []
     for combo in itertools.product(*per):
         out.append([e for c in combo for e in c])
-        if len(out) >= MAXCAND:
+        if len(out) >= maxcand:
             break
     return out
 
@@ -190,14 +208,20 @@ def schedule(order, nprocs):
     """model schedule items: (0,p) = p performs its next action, (2,p) = p runs to its end"""
     pc = [0] * nprocs
     items = []
-    for (_, i, act) in order:
+    done = set()
+    for (_, i, act, _hi) in order:
+        if act == "exit":     # the process is gone: whatever remained of its program has happened (or was cut off)
+            items.append((2, i))
+            done.add(i)
+            continue
         k = IDX[act] - pc[i] + 1
         if k <= 0:
             k = 1
         items += [(0, i)] * k
         pc[i] = IDX[act] + 1
     for i in range(nprocs):
-        items.append((2, i))
+        if i not in done:
+            items.append((2, i))
     return items
 
 
@@ -206,20 +230,22 @@ def coq_case(items, n, obs):
                                    clist(["(%d, %s, %s)" % (k, cbool(e), cbool(h)) for (k, e, h) in obs]))
 
 
-def model_replay(ctx, scns):
-    """returns for each scenario: (agrees, guarded, index of accepted candidate, number of candidates)"""
+def model_replay(ctx, scns, cluster=CLUSTER, maxcand=MAXCAND, tag="cases_c16"):
+    """returns for each scenario: (agrees, guarded, index of accepted candidate, number of candidates).  Scenarios the model
+    does not reproduce with the tight ordering tolerance are tried once more with a wide one (loaded machine: the time
+    stamp of a call and its effect can be milliseconds apart)."""
     cases, owner = [], []
     for si, s in enumerate(scns):
         n = len(s["procs"])
         obs = [(klass(p), executed(p), recorded(s, p)) for p in s["procs"]]
-        for ci, order in enumerate(candidate_orders(events(s))):
+        for ci, order in enumerate(candidate_orders(events(s), cluster, maxcand)):
             cases.append(coq_case(schedule(order, n), n, obs))
             owner.append((si, ci))
     txt = ("From Coq Require Import List Bool Arith.\nImport ListNotations.\nFrom BD.Sock Require Import Model Check.\n"
            "Definition cases : list rcase := [\n%s\n].\n"
            "Definition M := Eval vm_compute in mismatches cases.\nPrint M.\n"
            "Definition U := Eval vm_compute in unguarded cases.\nPrint U.\n") % ";\n".join(cases)
-    rc, out, dt = vlib.coq_eval(ctx.scratch, "cases_c16", txt)
+    rc, out, dt = vlib.coq_eval(ctx.scratch, tag, txt)
     bad = vlib.coq_list_result(out, "M") if rc == 0 else None
     ung = vlib.coq_list_result(out, "U") if rc == 0 else None
     if bad is None or ung is None:
@@ -234,6 +260,15 @@ def model_replay(ctx, scns):
         pick = ok[0] if ok else mine[0]
         res.append({"agrees": bool(ok), "guarded": pick not in ungset, "candidate": owner[pick][1], "candidates": len(mine),
                     "code": badset.get(mine[0], 0)})
+    if cluster == CLUSTER:
+        again = [k for k, r in enumerate(res) if not r["agrees"]]
+        if again:
+            wide = model_replay(ctx, [scns[k] for k in again], cluster=0.03, maxcand=400, tag=tag + "_wide")
+            if wide:
+                for k, r in zip(again, wide):
+                    if r["agrees"]:
+                        r["widened"] = True
+                        res[k] = r
     return res
 
 
@@ -291,7 +326,7 @@ def run(ctx, names=None):
             ctx.fail("correspondence", "the protocol model does not reproduce what the processes did in scenario %s (code %d; %d orderings of "
                      "near-simultaneous calls tried)" % (s["name"], r["code"], r["candidates"]), summary(s), cls={"class": "model-" + rc_})
         # the model's own classification must agree with the time stamps: racing <=> outside the premise of the _partial theorem
-        if rep and r["agrees"] and (rc_ == "none") != bool(r["guarded"]):
+        if rep and r["agrees"] and rc_ == "none" and not r["guarded"]:
             ctx.fail("correspondence", "scenario %s: race class %s from the time stamps, but the model's guard says guarded=%s"
                      % (s["name"], rc_, r["guarded"]), summary(s), cls={"class": "guard-" + rc_})
     # in-process agents: second start / retry while the first is active (sequential clause, volume)
@@ -368,7 +403,7 @@ def fill_evidence(ctx, scns, rep, classes, acases):
                        "replayed in the Coq model, predicts every process' fate (finished / refused / bind failed, executed, recorded); distinct "
                        "non-trivial = distinct (scenario, fates of the processes, race class) with at least two processes, plus distinct in-process "
                        "(phase, retry, DAG shape)")
-    ctx.cov["scenarios"] = {s["name"]: {"procs": len(s["procs"]), "race_class": race_class(s),
+    ctx.cov["scenarios"] = {"%d:%s" % (k, s["name"]): {"procs": len(s["procs"]), "race_class": race_class(s),
                                         "fates": [klass(p) for p in s["procs"]],
                                         "model_agrees": rep[k]["agrees"] if rep else None,
                                         "guarded": rep[k]["guarded"] if rep else None,
